@@ -198,6 +198,7 @@ package wal
 //@   ensures result == nil && (len(ents) != 0 || (!(st.Term == 0 && st.Vote == 0 && st.Commit == 0) && (st.Vote != old(w.state.Vote) || st.Term != old(w.state.Term)))) ==> ghost(flushes, nil) > old(ghost(flushes, nil))
 //@   ensures result == nil && !(st.Term == 0 && st.Vote == 0 && st.Commit == 0) && (st.Vote != old(w.state.Vote) || st.Term != old(w.state.Term)) ==> ghost(fsyncs, nil) > old(ghost(fsyncs, nil))
 //@   ensures result == nil && !w.optimizedFsync && (len(ents) != 0 || !(st.Term == 0 && st.Vote == 0 && st.Commit == 0)) && (len(ents) != 0 || st.Vote != old(w.state.Vote) || st.Term != old(w.state.Term)) ==> ghost(fsyncs, nil) > old(ghost(fsyncs, nil))
+//@   ensures result == nil && !(st.Term == 0 && st.Vote == 0 && st.Commit == 0) ==> w.state.Term == st.Term && w.state.Vote == st.Vote && w.state.Commit == st.Commit
 //@   modifies *
 //@ loop 1
 //@   invariant w.state.Term == old(w.state.Term) && w.state.Vote == old(w.state.Vote) && w.optimizedFsync == old(w.optimizedFsync) && sameSlice(w.locks, old(w.locks)) && ghost(flushes, nil) == old(ghost(flushes, nil)) && ghost(fsyncs, nil) == old(ghost(fsyncs, nil))
